@@ -238,7 +238,13 @@ enum V {
     FormulaText(&'static str),
     /// auto-typed `set_value`
     Auto(&'static str),
+    /// a text with characters NO legacy encoding of the options can represent (the UTF encodings can): what stands in
+    /// for them is not pinned by the statement - the field must still begin and end as the text does, and every other
+    /// field and record must be exactly right
+    Unmappable,
 }
+const UNMAPPABLE: &str = "a\u{1F600}\u{1F601}\u{1F602}\u{1F923}b";
+const UNPINNED: &str = "\u{0}unpinned";
 const SPECIALS: [(&str, V); 13] = [
     ("plain", V::Text("abc")),
     ("delim", V::Text("a,b")),
@@ -347,6 +353,19 @@ fn specs() -> Vec<Spec> {
             }
         }
     }
+    // (7) 1..6 cells with unrepresentable characters in column A, plain neighbours in column B, two plain rows after
+    for n in 1..=6u32 {
+        let mut cells = vec![];
+        for r in 1..=n {
+            cells.push((1, r, V::Unmappable));
+            cells.push((2, r, V::Pos));
+        }
+        for r in n + 1..=n + 2 {
+            cells.push((1, r, V::Pos));
+            cells.push((2, r, V::Pos));
+        }
+        v.push(Spec { kind: format!("unmappable:{}", n), sheets: vec![cells], active: 0, removed: vec![] });
+    }
     // (4) active sheet is not the first one / not the last one
     let target = vec![(1, 1, V::Pos), (3, 2, V::Text("abc")), (2, 3, V::Pos)];
     let decoy_big = vec![(1, 1, V::Text("decoy")), (4, 4, V::Text("decoy"))];
@@ -365,6 +384,7 @@ fn value_text(v: &V, c: u32, r: u32, enc: Enc) -> String {
         V::Bool(b) => if *b { "TRUE".into() } else { "FALSE".into() },
         V::Text(t) | V::Rich(t, _) | V::FormulaText(t) | V::Auto(t) => t.to_string(),
         V::Word => enc.word().to_string(),
+        V::Unmappable => UNMAPPABLE.to_string(),
     }
 }
 fn build(spec: &Spec, enc: Enc) -> umya_spreadsheet::Spreadsheet {
@@ -435,6 +455,10 @@ fn expected_grid(spec: &Spec, opt: Opt) -> Vec<Vec<String>> {
     let mut g = vec![vec![String::new(); max_c as usize]; max_r as usize];
     for (c, r, v) in cells {
         let t = value_text(v, *c, *r, opt.enc);
+        if *v == V::Unmappable && opt.enc.label().map(|l| l != "utf-8").unwrap_or(false) {
+            g[(*r - 1) as usize][(*c - 1) as usize] = UNPINNED.to_string();
+            continue;
+        }
         g[(*r - 1) as usize][(*c - 1) as usize] = if opt.trim { own_trim(&t).to_string() } else { t };
     }
     g
@@ -586,6 +610,12 @@ fn check_export(sink: &mut Sink, spec: &Spec, opt: Opt) {
             continue;
         }
         for (ci, (g, w)) in rec.iter().zip(wrow.iter()).enumerate() {
+            if w == UNPINNED {
+                if !(g.starts_with('a') && g.ends_with('b') && g.len() > 2) {
+                    push(sink, Violation::new("values", "unrepresentable-text-mangled-beyond-its-characters", &tags, case.clone(), format!("record {} field {}: {:?} stands for {:?}", ri + 1, ci + 1, g, UNMAPPABLE)));
+                }
+                continue;
+            }
             if g != w {
                 let sym = if opt.trim && own_trim(g) == w.as_str() {
                     "not-trimmed"
